@@ -43,6 +43,8 @@ ObsLoggerOK(s, l, o) ==
     /\ Has(o, "parent") => o.parent = s.parent[l]
     /\ Has(o, "root") => o.root = RootOf(s, l)
     /\ Has(o, "shape") => o.shape = Fmt(s.cfg[l])
+    \* ... and so does a record of every probed severity, whatever the registry says about it
+    /\ Has(o, "shapes") => \A x \in 1..Len(o.shapes) : o.shapes[x] = Fmt(s.cfg[l])
     \* timestamp of a probe record (if one was written): some layout the model allows, in the zone
     \* the model selects, explains the printed text (o.ts.fits = <<layout, zone>> pairs that do)
     /\ Has(o, "ts") => (o.ts.got => \E j \in DOMAIN o.ts.fits :
@@ -70,6 +72,7 @@ ObsLoggerOK(s, l, o) ==
 ObsMatch(s, e, s2) ==
     /\ Has(e, "ret") => e.ret = Ret(s, e, s2)
     /\ Has(e, "dbg") => e.dbg = s2.dbg
+    /\ (e.op = "Register" /\ Has(e, "ok")) => e.ok = RegOK(s, e)
     /\ Has(e, "deflvl") => e.deflvl = s2.deflvl
     /\ Has(e, "n") => e.n = s2.n
     \* C13: the attempts observed during the call, as a bag of [w, ph, fail]
